@@ -149,7 +149,10 @@ impl<'a> Gen<'a> {
             "bearertoken" => Tree::Str(["tok", "a.b-c_d~e+f/g=="][r.below(2)].to_string()),
             "datetime" => Tree::Str(["2017-01-02T03:04:05Z", "1999-12-31T23:59:59.123456789Z", "2020-02-29T00:00:00.500Z"][r.below(3)].to_string()),
             "binary" => Tree::Str(["", "aGVsbG8=", "+/8="][r.below(3)].to_string()),
-            "any" => match r.below(4) {
+            "any" => match r.below(6) {
+                // integers beyond i64 (a JSON number is a JSON number; `any` holds what it was given)
+                4 => Tree::Int([18446744073709551615i128, 9223372036854775808, -9223372036854775808][r.below(3)]),
+                5 => Tree::Obj(vec![("max".into(), Tree::Arr(vec![Tree::Int(18446744073709551615), Tree::Int(9223372036854775807)]))]),
                 0 => Tree::Str("anything".into()),
                 1 => Tree::Int(7),
                 2 => Tree::Arr(vec![Tree::Bool(true), Tree::Str("x".into())]),
@@ -452,6 +455,40 @@ fn faults(ir: &Ir, t: &Ty, doc: &Tree, rng: &mut Rng, depth: usize) -> Vec<(Stri
     out
 }
 
+/// C01 on the generated types of verif.json, in all three configurations: a valid document's value, written with
+/// the JSON and the Smile serializer, is read back equal through every entry point of both sides
+pub fn c01_generated(cs: &mut Cases, rng: &mut Rng, tier: Tier) {
+    let ir = load_ir();
+    let reg: HashMap<&'static str, verifgen::Entry> = verifgen::registry().into_iter().map(|e| (e.name, e)).collect();
+    let per_type = if tier == Tier::Quick { 3 } else { 25 };
+    for (i, name) in ir.names.iter().enumerate() {
+        let entry = match reg.get(name.as_str()) {
+            Some(e) => e,
+            None => continue,
+        };
+        for (cfg, exh) in [("plain", false), ("exhaustive", true), ("empties", false)] {
+            for _ in 0..per_type {
+                let doc = {
+                    let mut g = Gen { ir: &ir, rng: &mut *rng, exhaustive: exh };
+                    g.value(&Ty::Ref(i), 3)
+                };
+                let bytes = serde_json::to_vec(&doc).unwrap();
+                let f = entry.round;
+                let (c2, b2) = (cfg.to_string(), bytes.clone());
+                let r = guarded(move || f(&c2, &b2));
+                let txt = String::from_utf8_lossy(&bytes).to_string();
+                cs.push(&format!("generated:{}", cfg), "noop".into(), "noop".into(), txt.contains("[]") || txt.contains("{}") || txt.contains("null") || txt.contains("NaN") || txt.contains("ri."), format!("{} ({}): {}", name, cfg, txt));
+                match r {
+                    Err(p) => cs.fail_last("generated:panic", format!("{} ({}) panicked on {}: {}", name, cfg, txt, p)),
+                    Ok(Err(e)) if e.starts_with("the document itself is rejected") => {} // C02's business
+                    Ok(Err(e)) => cs.fail_last("generated:roundtrip", format!("{} ({}) from {}: {}", name, cfg, txt, e)),
+                    Ok(Ok(())) => {}
+                }
+            }
+        }
+    }
+}
+
 /// C05 on the generated types of verif.json, in all three configurations: a valid document with one undeclared field
 /// added to an object at any depth (below optionals, lists, sets, map values, aliases, union members) is read by the
 /// client exactly as the document without it, and rejected by the server with an error naming the field.  The
@@ -579,8 +616,17 @@ pub fn cases(seed: u64, tier: Tier) -> Cases {
                             },
                             _ => None,
                         };
+                        // integers beyond i64 only occur inside `any` values, which hold what they were given
+                        let altered_int = if label == "valid" && real.starts_with("ok") {
+                            let txt = String::from_utf8_lossy(&bytes).to_string();
+                            ["18446744073709551615", "9223372036854775808", "-9223372036854775808"].iter().find(|b| txt.contains(*b) && !real.contains(*b)).map(|b| b.to_string())
+                        } else {
+                            None
+                        };
                         if let Err(p) = &r {
                             cs.fail_last(&format!("panic:{}", name), format!("{} panicked on {}: {}", name, String::from_utf8_lossy(&bytes), p));
+                        } else if let Some(b) = altered_int {
+                            cs.fail_last("any:integer-altered", format!("{} ({}, {}): the integer {} held in an `any` is not in the re-serialization of {}: {}", name, cfg, if server { "server" } else { "client" }, b, String::from_utf8_lossy(&bytes), real));
                         } else if let Some(w) = not_omitted {
                             cs.fail_last("absent-or-empty-not-omitted", format!("{} ({}, {}): {} in the re-serialization of {}: {}", name, cfg, if server { "server" } else { "client" }, w, String::from_utf8_lossy(&bytes), real));
                         } else if label == "valid" && real == "err" && !(exh && String::from_utf8_lossy(&bytes).contains("\"none\"")) {
@@ -589,6 +635,49 @@ pub fn cases(seed: u64, tier: Tier) -> Cases {
                             cs.fail_last(&format!("fault-accepted:{}", label), format!("{} ({}, {}) accepts a document with the fault `{}`: {} -> {}", name, cfg, if server { "server" } else { "client" }, label, String::from_utf8_lossy(&bytes), real));
                         } else if label == "unknown-field" && server && real != "err" {
                             cs.fail_last("fault-accepted:unknown-field", format!("{} ({}, server) accepts an undeclared field: {}", name, cfg, String::from_utf8_lossy(&bytes)));
+                        }
+                    }
+                }
+            }
+        }
+    }
+    // ---- distinct values stay distinct as elements of a set: for every object type with a list-valued field, three
+    // documents that differ only in that list (one a prefix of the next) are three elements, in every configuration
+    // of the element type's own equality and order (lists of doubles compare through `DoubleOps`)
+    for (i, name) in ir.names.iter().enumerate() {
+        let (entry, fields) = match (reg.get(name.as_str()), &ir.defs[i]) {
+            (Some(e), Def::Object(fs)) => (e, fs),
+            _ => continue,
+        };
+        for (fname, ft) in fields {
+            let item = match dealias(&ir, ft) {
+                Ty::List(t) => (**t).clone(),
+                _ => continue,
+            };
+            for _ in 0..(if tier == Tier::Quick { 2 } else { 10 }) {
+                let (base, x, y) = {
+                    let mut g = Gen { ir: &ir, rng: &mut rng, exhaustive: false };
+                    (g.value(&Ty::Ref(i), 3), g.value(&item, 2), g.value(&item, 2))
+                };
+                let with = |items: Vec<Tree>| -> Vec<u8> {
+                    let mut d = base.clone();
+                    if let Tree::Obj(ms) = &mut d {
+                        ms.retain(|m| &m.0 != fname);
+                        ms.push((fname.clone(), Tree::Arr(items)));
+                    }
+                    serde_json::to_vec(&d).unwrap()
+                };
+                let docs = [with(vec![]), with(vec![x.clone()]), with(vec![x.clone(), y.clone()]), with(vec![x.clone(), y.clone(), x.clone()])];
+                let refs: Vec<&[u8]> = docs.iter().map(|d| &d[..]).collect();
+                let f = entry.set_probe;
+                let r = guarded(|| f(&refs));
+                cs.push("set-of-prefixes", "noop".into(), "noop".into(), true, format!("{}: four documents differing only in `{}` = [], [x], [x,y], [x,y,x] with x = {}, y = {}", name, fname, x.txt(None), y.txt(None)));
+                match r {
+                    Err(p) => cs.fail_last(&format!("panic:{}", name), p),
+                    Ok(Err(_)) => {} // a document is rejected: not this oracle's business
+                    Ok(Ok((bt, hs, found_b, found_h, twice))) => {
+                        if bt != 4 || hs != 4 || !found_b || !found_h || !twice {
+                            cs.fail_last("set:distinct-values-merged", format!("four distinct {} values (lists of length 0, 1, 2, 3 in `{}`) make a BTreeSet of {} and a HashSet of {} (all found again: {} / {}; equal when read twice: {}): {}", name, fname, bt, hs, found_b, found_h, twice, String::from_utf8_lossy(&docs[3])));
                         }
                     }
                 }
